@@ -19,18 +19,18 @@ import (
 // exit codes: 0 held, 1 violation (with VIOLATION line), 2 inconclusive / harness trouble
 
 type violationRec struct {
-	Class   string `json:"class"`
-	Detail  string `json:"detail"`
-	Replay  string `json:"replay"`
-	Count   int    `json:"count"`
-	MinTries int   `json:"min_tries"`
+	Class    string `json:"class"`
+	Detail   string `json:"detail"`
+	Replay   string `json:"replay"`
+	Count    int    `json:"count"`
+	MinTries int    `json:"min_tries"`
 }
 
 type workerReport struct {
-	Stats      *Stats         `json:"stats"`
-	Violations []violationRec `json:"violations"`
-	Inconclusive []string     `json:"inconclusive"`
-	WallS      float64        `json:"wall_s"`
+	Stats        *Stats         `json:"stats"`
+	Violations   []violationRec `json:"violations"`
+	Inconclusive []string       `json:"inconclusive"`
+	WallS        float64        `json:"wall_s"`
 }
 
 type knownFinding struct {
